@@ -43,9 +43,10 @@ def run(ctx):
                                           tag=tag + "f", extra_overlay=frr_overlay(ctx))
         cs = take(recs, okrun, log, "TestVerifDeb")
         # real sessionManager -> real debouncer -> real generateAndReloadConfigFile -> scripted reload signal
-        recs, okrun, log = ctx.go_harness(FRR_PKG, ["zz_verif_debmgr_test.go", "zz_verif_gen_test.go"], "TestVerifDebMgr$",
+        recs, okrun, log = ctx.go_harness(FRR_PKG, ["zz_verif_debmgr_test.go", "zz_verif_debreloader_test.go", "zz_verif_deb_test.go", "zz_verif_gen_test.go"],
+                                          "TestVerifDeb(Mgr|Reloader)$",
                                           n=(10 if quick else 80), seed=seed, tag=tag + "m", extra_overlay=frr_overlay(ctx))
-        take(recs, okrun, log, "TestVerifDebMgr")
+        take(recs, okrun, log, "TestVerifDebMgr/TestVerifDebReloader")
         recs, okrun, log = ctx.go_harness("internal/k8s/controllers", ["zz_verif_deb_test.go"], "TestVerifKDeb$", n=nk,
                                           seed=seed, tag=tag + "k")
         cs += take(recs, okrun, log, "TestVerifKDeb")
@@ -68,7 +69,7 @@ def run(ctx):
     if cases and not ctx.corr_broken and not ctx.violations:
         for k in ("failed_calls", "reapply_events", "traces_with_coalescing", "burst_checked", "ktraces_with_coalescing",
                   "real_body_scenarios", "real_reload_signal_failures",
-                  "deliver_schedules", "deliver_consumer_starts_after_first_timer", "mgr_histories", "mgr_stepwise_histories", "mgr_bfd_syncs_same_size", "mgr_reload_signal_failures"):
+                  "deliver_schedules", "deliver_ends_with_shrink", "deliver_consumer_starts_after_first_timer", "reloader_rounds", "mgr_histories", "mgr_stepwise_histories", "mgr_bfd_syncs_same_size", "mgr_reload_signal_failures"):
             if st.get(k, 0) == 0:
                 raise Exception("generator degenerate: counter %s is zero: %r" % (k, st))
 
